@@ -1,5 +1,6 @@
 import Lemmas.EvalTok
 import Lemmas.EvalTotal
+import Lemmas.EvalCall
 /-! C09, lexing layer: the character-level scan loop `parseLoop` of `Model/Eval.lean`, run on the rendering of a token
     list in any blank layout, performs exactly the steps of the token machine of `Lemmas/EvalTok.lean`. Core only. -/
 namespace Eval
@@ -323,12 +324,52 @@ theorem loop_opd_sym (ops : List Op) (fns : List Bytes) (hT : TableOK ops) (b x 
     have hlen : rest.length < (t ++ (b2 ++ (o.sym ++ rest))).length + 1 := by simp; omega
     rw [if_pos hlen]
 
+/-- loop head, blanks, a function name, blanks, `(`, a balanced argument text, `)`: the call is captured, the loop
+    continues behind the closing parenthesis with an operand pending -/
+theorem loop_call (ops : List Op) (fns : List Bytes) (hT : TableOK ops) (lp rp : Op) (hP : ParenTable ops lp rp)
+    (b0 f b args : Bytes) (hb0 : Blank b0) (hf : AtomOK ops f) (hfn : f ∈ fns) (hb : Blank b) (ha : Bal args)
+    (pre rest : Bytes) (st : St) (hv : Bool) (un : Option Op) :
+    parseLoop ops fns pre (b0 ++ (f ++ (b ++ (40 :: (args ++ 41 :: rest))))) st hv un =
+      parseLoop ops fns (41 :: (args.reverse ++ 40 :: (b.reverse ++ (f.reverse ++ (b0.reverse ++ pre))))) rest
+        (pushCall st un f args) true none := by
+  rw [parseLoop_blanks ops fns b0 hb0]
+  have hxc : ∀ c ∈ f, 32 < c ∧ c < 128 := fun c hc => ⟨(hf.2.1 c hc).1, (hf.2.1 c hc).2.1⟩
+  have htrim := trimSpace_atom f b hf.1 hxc hb
+  have hnx : nextOperator ops (b0.reverse ++ pre) (f ++ (b ++ (40 :: (args ++ 41 :: rest)))) =
+      some (f ++ (b ++ []), lp, b.reverse ++ (f.reverse ++ (b0.reverse ++ pre)), 40 :: (args ++ 41 :: rest)) := by
+    rw [scan_atom ops hT f b hf hb (b0.reverse ++ pre) (40 :: (args ++ 41 :: rest)),
+      nextOperator_here ops _ 40 _ lp (hP.lp40 _ _)]
+  have hcap : captureArgs ops ((args ++ 41 :: rest).length + 1) 1
+      (40 :: (b.reverse ++ (f.reverse ++ (b0.reverse ++ pre)))) (args ++ 41 :: rest) [] =
+      .ok (args, rp, args.reverse ++ 40 :: (b.reverse ++ (f.reverse ++ (b0.reverse ++ pre))), 41 :: rest) := by
+    rw [captureArgs_parenSplit ops hT.ne lp rp hP _ 1 _ _ _ (Nat.le_refl 1) (Nat.lt_succ_self _), bal_close args ha rest]
+    simp
+  have hcall : callFunction fns (pushOperand st un f) args = .ok (pushCall st un f args) := by
+    simp [callFunction, pushOperand, pushCall, hfn]
+  cases hfe : f with
+  | nil => exact absurd hfe hf.1
+  | cons c t =>
+    have hc : isScanSpace c = false := atom_not_space c (hxc c (by simp [hfe])).1
+    rw [hfe] at hnx htrim hcap hcall
+    rw [List.cons_append, parseLoop_step _ _ _ _ _ _ _ _ hc]
+    unfold scanStep
+    rw [← List.cons_append (a := c) (as := t), hnx]
+    have hl1 : (lp.sym == LP) = true := by rw [hP.lpS]; decide
+    have hr1 : (rp.sym == RP) = true := by rw [hP.rpS]; decide
+    have hrl : rp.sym.length = 1 := by rw [hP.rpS]; rfl
+    simp only [List.append_nil, htrim, List.append_eq_nil_iff, reduceCtorEq, false_and, if_false, operatorPhase,
+      hP.lpU, Bool.false_and, Bool.false_eq_true, processOperator, hl1, Bool.and_self, if_true, hcap, hcall, hrl,
+      advance, hr1, contLoop]
+    have hlen : rest.length < (t ++ (b ++ 40 :: (args ++ 41 :: rest))).length + 1 := by simp; omega
+    rw [if_pos hlen]
+
 
 /-! ### rendering a token list in a blank layout, and the bridge -/
 
 def Tok.bytes : Tok → Bytes
   | .opd x => x
   | .sym o => o.sym
+  | .call f b args => f ++ (b ++ 40 :: (args ++ [41]))
 
 /-- `ws k` is the run of blanks before token number `k` (after the last token for `k` = number of tokens) -/
 def render (ws : Nat → Bytes) : Nat → List Tok → Bytes
@@ -352,10 +393,11 @@ def NextNot61 : List Tok → Prop
 
 /-- what the lexing layer needs of a token list: operands are atoms and are followed by an operator symbol or the
     end; an operator symbol other than `)` is not followed by a token starting with `=` -/
-def LexOK (ops : List Op) : List Tok → Prop
+def LexOK (ops : List Op) (fns : List Bytes) : List Tok → Prop
   | [] => True
-  | .opd x :: ts => AtomOK ops x ∧ (ts = [] ∨ ∃ o ts', ts = .sym o :: ts') ∧ LexOK ops ts
-  | .sym o :: ts => o ∈ ops ∧ (o.sym = RP ∨ NextNot61 ts) ∧ LexOK ops ts
+  | .opd x :: ts => AtomOK ops x ∧ (ts = [] ∨ ∃ o ts', ts = .sym o :: ts') ∧ LexOK ops fns ts
+  | .sym o :: ts => o ∈ ops ∧ (o.sym = RP ∨ NextNot61 ts) ∧ LexOK ops fns ts
+  | .call f b args :: ts => AtomOK ops f ∧ f ∈ fns ∧ Blank b ∧ Bal args ∧ LexOK ops fns ts
 
 theorem blank_not61 (b s : Bytes) (hb : Blank b) (hs : s.head? ≠ some 61) : (b ++ s).head? ≠ some 61 := by
   cases b with
@@ -389,9 +431,9 @@ theorem runToks_cons_ok (m m' : MSt) (t : Tok) (ts : List Tok) (h : runToks m (t
 
 /-- **the bridge**: if the token machine accepts a lexable token list, the character-level scan loop run on any blank
     layout of it ends with the same stacks -/
-theorem parseLoop_render (ops : List Op) (fns : List Bytes) (hL : LexTable ops) (ws : Nat → Bytes)
-    (hws : ∀ k, Blank (ws k)) :
-    ∀ (ts : List Tok) (k : Nat) (m m' : MSt) (pre : Bytes), NoE pre → LexOK ops ts → runToks m ts = .ok m' →
+theorem parseLoop_render (ops : List Op) (fns : List Bytes) (hL : LexTable ops) (lp rp : Op)
+    (hP : ParenTable ops lp rp) (ws : Nat → Bytes) (hws : ∀ k, Blank (ws k)) :
+    ∀ (ts : List Tok) (k : Nat) (m m' : MSt) (pre : Bytes), NoE pre → LexOK ops fns ts → runToks m ts = .ok m' →
       parseLoop ops fns pre (render ws k ts) m.st m.hv m.un = .ok m'.st := by
   intro ts
   have hT : TableOK ops := hL.toTableOK
@@ -416,6 +458,17 @@ theorem parseLoop_render (ops : List Op) (fns : List Bytes) (hL : LexTable ops) 
       simp only [render, Tok.bytes]
       rw [loop_sym ops fns hT (ws k) (hws k) pre _ o ho m m1 (hfm _ hpre1) hstep]
       exact ih (k + 1) m1 m' _ (noE_rev _ _ hpre1 hlast) hlex' hrest
+    | call f b args =>
+      obtain ⟨hf, hfn, hb, ha, hlex'⟩ := hlex
+      have hm1 : m1 = ⟨pushCall m.st m.un f args, true, none⟩ := by
+        simp only [stepTok] at hstep; injection hstep with hstep; exact hstep.symm
+      subst hm1
+      have e : ws k ++ ((Tok.call f b args).bytes ++ render ws (k + 1) ts) =
+          ws k ++ (f ++ (b ++ (40 :: (args ++ 41 :: render ws (k + 1) ts)))) := by
+        simp [Tok.bytes, List.append_assoc]
+      simp only [render]
+      rw [e, loop_call ops fns hT lp rp hP (ws k) f b args (hws k) hf hfn hb ha]
+      exact ih (k + 1) _ m' _ (by simp [NoE]) hlex' hrest
     | opd x =>
       obtain ⟨hx, hnext, hlex'⟩ := hlex
       have hm1 : m1 = ⟨pushOperand m.st m.un x, true, none⟩ := by
